@@ -159,6 +159,25 @@ pub fn run(k: &str, a: &Value) -> Option<Value> {
                 o.s(&format!("3D point-to-point Jacobian entry {i}"), jp[i], fdp, 1e-5 * s);
             }
         }
+        "align2" => {
+            use engeom::geom2::align2::points_to_curve;
+            let pts: Vec<Point2> = a["pts"].as_array().unwrap().iter().map(p2).collect();
+            let curve = engeom::Curve2::from_points(&pts, f(&a["tol"]), false).unwrap();
+            let points: Vec<Point2> = a["points"].as_array().unwrap().iter().map(p2).collect();
+            let t0 = iso2(&a["iso"]);
+            match points_to_curve(&points, &curve, &t0) {
+                Ok(al) => {
+                    for (i, p) in points.iter().enumerate() {
+                        let m = al.transform() * p;
+                        let want = curve.at_closest_to_point(&m).surface_point().scalar_projection(&m);
+                        let got = if i < al.residuals().len() { al.residuals()[i] } else { f64::NAN };
+                        o.s(&format!("residual {i} is the signed distance measure of point {i} moved by the returned transform"), got, want, 1e-9 * (1.0 + want.abs()));
+                    }
+                    o.s("one residual per input point", al.residuals().len() as f64, points.len() as f64, 0.0);
+                }
+                Err(_) => { o.0.push(json!(["alignment failed", 0.0, 0.0, 1.0])); }
+            }
+        }
         _ => return None,
     }
     Some(json!({"pairs": o.0}))
